@@ -176,6 +176,7 @@ def run(chk):
     chk.rule(R3, "every scan of _stop_bit_vector from a caller-derived index is reached only through the true edge of "
                  "bit_vector_get_bit(_used_bit_vector, same index) (sibling guard of release/shrink/query)")
     nscan = 0
+    span_sites = []
     for name, fn in fns.items():
         scans = [(i, x) for i, x in fn.calls(lambda x: x.get("cn") == "bit_vector_index_of")
                  if x.get("args") and "_stop_bit_vector" in fn.text(x["args"][0])]
@@ -189,9 +190,66 @@ def run(chk):
                 return fn.access_path(x["args"][1])
             return None
 
+        def helper_idx(atom):
+            """block->is_span_start(idx)-like helper: a bool method whose single return is a conjunction that tests the used bit of its
+            parameter (-> 'used') and a bit at parameter - 1 (-> 'span-start')"""
+            x = fn.e(atom)
+            if not (x and x["k"] == "mcall" and len(x.get("args", [])) == 1):
+                return None, ()
+            g = fns.get((x.get("callee") or "").replace("asmjit::", ""))
+            if g is None or len(g.params) != 1:
+                return None, ()
+            rets = list(g.return_sites())
+            if len(rets) != 1:
+                return None, ()
+            body = g.e(rets[0][2]).get("val")
+            pname = g.params[0]["name"]
+            kinds = set()
+            conj, stack = [], [body]
+            while stack:
+                c = stack.pop()
+                cx = g.e(c)
+                while cx and cx["k"] in ("paren", "cast"):
+                    c = cx["sub"]
+                    cx = g.e(c)
+                if cx and cx["k"] == "binop" and cx["op"] == "&&":
+                    stack += [cx["lhs"], cx["rhs"]]
+                else:
+                    conj.append(c)
+            for c in conj:
+                cx = g.e(c)
+                if cx and cx["k"] in ("call", "mcall") and cx.get("cn") == "bit_vector_get_bit" and "_used_bit_vector" in g.text(cx["args"][0]) \
+                        and (g.access_path(cx["args"][1]) or "") == pname:
+                    kinds.add("used")
+                t = re.sub(r"\s+", "", g.text(c))
+                if re.search(r"bit_vector_get_bit\([^,]*_stop_bit_vector,%s-1\)" % re.escape(pname), t):
+                    kinds.add("span-start")
+            return fn.access_path(x["args"][0]), tuple(kinds)
+
         def edge_fx(b, si, atom, holds):
             p = used_idx(atom)
-            return [("used", p)] if (p and holds) else ()
+            if p and holds:
+                return [("used", p)]
+            # a conjunction `aligned && block->is_span_start(idx)` stored in a bool: every conjunct holds on the true edge
+            out = []
+            if holds:
+                stack = [atom]
+                while stack:
+                    c = stack.pop()
+                    cx = fn.e(c)
+                    while cx and cx["k"] in ("paren", "cast"):
+                        c = cx["sub"]
+                        cx = fn.e(c)
+                    if cx and cx["k"] == "binop" and cx["op"] == "&&":
+                        stack += [cx["lhs"], cx["rhs"]]
+                        continue
+                    q = used_idx(c)
+                    if q:
+                        out.append(("used", q))
+                    hp, kinds = helper_idx(c)
+                    for kd in kinds:
+                        out.append((kd, hp))
+            return out
 
         def elem_fx(eid, x):
             if x["k"] == "binop" and x["op"] == "=":
@@ -208,7 +266,18 @@ def run(chk):
             chk.ob(R3, "%s|%s" % (name, p), ok, loc=fn.loc(i),
                    detail="%s scans the stop bits from `%s` without first testing that granule's used bit: a stale or foreign "
                           "pointer inside a block is accepted" % (name, p), key="usedscan|%s|%s" % (name, p))
+            if name.split("::")[-1] in ("release", "JitAllocatorImpl_shrink") or name.endswith("_shrink") or name.endswith("::release"):
+                span_sites.append((name, fn, i, p, st is not None and ("span-start", p) in st))
     chk.floor(R3 + ":scans", nscan, 1)
+
+    R3b = "R-SPAN-START-GUARD"
+    chk.rule(R3b, "release() and shrink() - the entry points that change a block's bookkeeping - reach the stop-bit scan only after the unit "
+                  "before the looked-up one was consulted (stop bit of index - 1, directly or through a block helper): a pointer into the "
+                  "middle of a span is refused instead of splitting the span")
+    for name, fn, i, p, ok in span_sites:
+        chk.ob(R3b, "%s|%s" % (name, p), ok, loc=fn.loc(i),
+               detail="%s frees / shrinks from `%s` without checking that it is the first unit of a span" % (name, p), key="spanstart|%s" % name)
+    chk.floor(R3b + ":sites", len(span_sites), 2)
 
     # ---------------------------------------------------------------- C09.b' block pointer null-tested
     R4 = "R-BLOCK-NULL-TESTED"
@@ -514,6 +583,72 @@ def run(chk):
                           "granules (pools 1 and 2 use 2x and 4x the base)" % " ".join(fn.text(i).split())[:80],
                    key="areaunit|%s|%s" % (sname, re.sub(r"\s+", "", fn.text(i))[:48]))
     chk.floor(R9 + ":conversions", nconv, 6)
+
+    # ---------------------------------------------------------------- C09.h the emptiness test is evaluated on every release path
+    R10 = "R-EMPTY-TEST-ALL-PATHS"
+    chk.rule(R10, "JitAllocatorBlock::mark_released_area: the comparison of area_used() with initial_area_start() is evaluated on every path "
+                  "from entry to exit (must-analysis): whichever bookkeeping mode the block is in, a release that empties it is noticed")
+    mra = need_fn("JitAllocatorBlock::mark_released_area")
+
+    def efx(eid, x, fn=mra):
+        if x["k"] == "binop" and x["op"] in ("==", "!=") and "area_used" in fn.text(eid) and "initial_area_start" in fn.text(eid):
+            return ((("emptiness-tested",),), ())
+        return None
+    mm = Must(mra, efx, None)
+    st_exit = mm.IN.get(mra.exit)
+    chk.ob(R10, "JitAllocatorBlock::mark_released_area", st_exit is not None and ("emptiness-tested",) in st_exit, loc="%s:%d" % (UNIT, mra.line),
+           detail="a path through mark_released_area never compares area_used() with initial_area_start(): a block emptied on that path is not "
+                  "flagged empty, is never released and is not counted by the empty-block policy", key="emptytest|mark_released_area")
+
+    # ---------------------------------------------------------------- C09.i wiping fills what was used
+    R11 = "R-FILL-USED-RANGES"
+    chk.rule(R11, "a function that fills ranges obtained from a BitVectorRangeIterator over `_used_bit_vector` with the fill pattern iterates the "
+                  "set bits (template argument 1): wiping a block overwrites the areas that held code, not the free ones")
+    nfill = 0
+    for name, fn in sorted(fns.items()):
+        if not any(True for i, x in fn.calls(lambda x: x.get("cn") == "JitAllocator_fill_pattern")):
+            continue
+        for i, x in fn.ex.items():
+            if x["k"] != "decl":
+                continue
+            for v in x["vars"]:
+                m_ = re.search(r"BitVectorRangeIterator<[^,>]+,\s*(\d+)\s*>", v.get("ty", ""))
+                if m_ and v.get("init") and "_used_bit_vector" in fn.text(v["init"]):
+                    nfill += 1
+                    chk.ob(R11, "%s|%s" % (name, v["name"]), m_.group(1) == "1", loc=fn.loc(i),
+                           detail="%s fills the ranges of `%s`, which iterates the %s bits of _used_bit_vector" % (name, v["name"], "clear" if m_.group(1) == "0" else "set"),
+                           key="fillranges|%s" % name)
+    chk.floor(R11 + ":iterators", nfill, 1)
+
+    # ---------------------------------------------------------------- C09.j a block that is re-inserted has no stale links
+    R12 = "R-REINSERT-LINKS-CLEARED"
+    chk.rule(R12, "JitAllocator::reset: the block that survives a soft reset is handed to JitAllocatorImpl_insertBlock only after both of its "
+                  "intrusive link pairs were cleared on that path (_list_nodes[0..1] of the pool list and _tree_nodes[0..1] of the address tree): "
+                  "both containers were reset and the other blocks freed")
+    rst = need_fn("JitAllocator::reset")
+    ins = [(i, x) for i, x in rst.calls(lambda x: x.get("cn") == "JitAllocatorImpl_insertBlock" and len(x.get("args", [])) >= 2)]
+    chk.need(len(ins) >= 1, "JitAllocator::reset no longer re-inserts the kept block")
+
+    def lfx(eid, x, fn=rst):
+        if x["k"] == "binop" and x["op"] == "=":
+            r = fn.e(fn.strip(x["rhs"]))
+            if r is not None and (r["k"] == "null" or r.get("cv") == 0):
+                y = fn.e(fn.strip(x["lhs"]))
+                if y and y["k"] == "subscript":
+                    b_ = fn.e(fn.strip(y["base"]))
+                    ix = fn.e(fn.strip(y["idx"]))
+                    if b_ and b_["k"] == "member" and b_.get("field") in ("_list_nodes", "_tree_nodes") and ix is not None and isinstance(ix.get("cv"), int):
+                        root = fn.access_path(b_["base"])
+                        return ((("cleared", root, b_["field"], ix["cv"]),), ())
+        return None
+    ml = Must(rst, lfx, None)
+    for k, (i, x) in enumerate(ins):
+        root = rst.access_path(x["args"][1])
+        st = ml.before(i) or frozenset()
+        missing = [(f_, j) for f_ in ("_list_nodes", "_tree_nodes") for j in (0, 1) if ("cleared", root, f_, j) not in st]
+        chk.ob(R12, "JitAllocator::reset|insertBlock(%s)" % root, not missing, loc=rst.loc(i),
+               detail="`%s` is re-inserted with stale links %s: they still point at blocks that were just freed (use after free on the next "
+                      "tree walk)" % (root, ["%s[%d]" % m_ for m_ in missing]), key="reinsertlinks|reset")
 
     return chk.finish(
         level="other",
